@@ -7,6 +7,7 @@ import WhVerif.Lemmas.C07Fam
 import WhVerif.Lemmas.C07Pop
 import WhVerif.Lemmas.C07CompleteReplay
 import WhVerif.Lemmas.C07Pipe
+import WhVerif.Lemmas.C07Pref
 /-!
 # C07 — read selection never exceeds the coverage cap and leaves no admissible read out
 
@@ -362,6 +363,40 @@ left out and saturated at position 10 -/
 example : (match sampleStage stageEx 1 [2] [] with
      | .ok o => some (o.selIdx, countSel (o.cands.map (SRead.toRead [2])) o.selIdx 10)
      | .error _ => none) = some ([0], 1) := by decide
+
+/-- **preferred reads come first** (repaired code = /repo): a read from a preferred source (a pseudo read of a phase-input
+VCF) is left out only if some variant it spans is already spanned by `k` selected reads that are ALL from preferred
+sources — ordinary reads never displace a preferred one -/
+theorem preferred_first (reads : List Read) (k : Nat) (br : Bool) (cs : List Nat) (sel : List Nat)
+    (h : readselection true reads k br cs = .ok sel) :
+    ∀ i, i < reads.length → (getRead reads i).pref = true → i ∉ sel →
+      ∃ S : List Nat, S.Nodup ∧ (∀ j ∈ S, j ∈ sel ∧ (getRead reads j).pref = true) ∧
+        ∃ p ∈ positions reads, (getRead reads i).spans p = true ∧ k ≤ countSel reads S p := by
+  obtain ⟨h2, rfl⟩ := readselection_ok h
+  have h1 := phase1_max reads k br cs
+  have ht := (phases_terminate true reads k br cs h2).1
+  have hsub := phase1_sub_final reads k br cs
+  have hgood := (phases_good true reads k br cs).2
+  intro i hi hpref hns
+  refine ⟨(phases true reads k br cs).1.selected, ?_, fun j hj => ⟨hsub j hj, (mem_preferredIdx_iff.mp (h1.selU j hj)).2⟩, ?_⟩
+  · -- the selected list of phase 1 is duplicate-free: it satisfies the cap/subset invariant too
+    have : HGood reads (positions reads) k (phases true reads k br cs).1 := by
+      unfold phases
+      simp only
+      have h0 : Good reads (positions reads) k [] [] :=
+        ⟨List.nodup_nil, by simp, by simp [countSel, Cov.at], by simp [Cov.at]⟩
+      split
+      · exact ⟨by simp, h0⟩
+      · exact helper_good ⟨fun i hi => mem_preferredIdx hi, h0⟩
+    exact this.2.1
+  · rcases h1.dec i (mem_preferredIdx_iff.mpr ⟨hi, hpref⟩) with hu | hs | hb
+    · rw [ht] at hu; simp at hu
+    · exact absurd (hsub i hs) hns
+    · obtain ⟨p, hp, hsp, hk⟩ := blocked_true_iff.mp hb
+      exact ⟨p, hp, hsp, by rw [← h1.exact p]; exact hk⟩
+
+/-- non-vacuity: cap 1, the preferred read 0 and the better-quality ordinary read 1 over the same variants: read 0 wins -/
+example : readselection true [⟨[10, 20], [1, 1], true⟩, ⟨[10, 20], [50, 50], false⟩] 1 true [] = .ok [0] := by decide
 
 /-- **the per-sample share** `max(1, k // len(family))` of `--internal-downsampling k`: at least 1 whatever `k` is (a cap
 of 0 or below acts as cap 1 per sample); for `k ≥ 1` at most `k`, and the shares of a family of at most `k` members
